@@ -283,7 +283,8 @@ def impl_roundtrip(item):
 
 CHARS = ['"', '\\', ',', '\n', '\r', '\t', '\x00', '\x7f', 'é', ' ', '﻿', '￿', '\U00010000',
          '\U0001F600', '\ud800', '\udbff', '\udc00', '\udfff', ' ', '0', '1', '9', 'a', 'z', 'A', '/', '\x08', '\x0c',
-         '\x1f', '{', '[', ':', ']', '}', 'u', '\u0080', '퟿', '', '\U0010ffff', "'", '-', '.', 'e', '#']
+         '\x1f', '{', '[', ':', ']', '}', 'u', '\u0080', '퟿', '', '\U0010ffff', "'", '-', '.', 'e', '#',
+         'e', '\u0301', '\u0323', '\u212b', '\u1100', '\u1161', '\uf900']     # not in normal form C when combined
 NUM_TOKENS = ['0', '-0', '1', '-1', '42', '9007199254740992', '-9007199254740992', '9007199254740993',
               '9223372036854775807', '-9223372036854775808', '9223372036854775808', '18446744073709551615',
               '18446744073709551616', '-18446744073709551616', '1000000000000000000000000000000', '5e-324', '1e308',
@@ -386,11 +387,16 @@ def gen_json_items(rng, n_docs, fmt, layouts):
 ALL_LAYOUTS = [[False, False], [False, True], [True, False], [True, True]]
 
 CSV_CHARS = ['"', ',', '\n', '\r', '\t', ' ', 'a', 'b', '1', '0', 'é', ' ', '﻿', '\U0001F600', '\x00', "'", ';',
-             '\x0b', '\x0c', '\x1c', '\x85', '\\', 'x', 'y']
+             '\x0b', '\x0c', '\x1c', '\x85', '\\', 'x', 'y',
+             # text that is not in Unicode normal form C (a printer must not normalise): combining marks after a base letter,
+             # in non-canonical order, singleton decompositions, conjoining Hangul jamo, a compatibility ideograph
+             'e', '\u0301', '\u0323', '\u212b', '\u2126', '\u1100', '\u1161', '\uf900', '\u00c5']
 
 
 def gen_csv_items(rng, n):
-    items = []
+    # fixed documents first: cells that are not in Unicode normal form C must come back code point for code point
+    items = [{'fmt': 'csv', 'src': src} for src in (
+        'e\u0301,\u212b\n\u1100\u1161,a\u0323\u0301\n', 'a\u0301\u0323\n', '"\u2126,x",\uf900\n', '\u00c5,A\u030a\n')]
     for i in range(n):
         rows = []
         for _ in range(rng.choice([0, 1, 2, 3, 5])):
